@@ -84,6 +84,8 @@ struct FdSim
 	std::vector<int64_t> script;   // per call: n>0 transfer at most n bytes, 0 = as much as asked, n<0 = fail with errno -n
 	size_t script_pos = 0;
 	int open_errno = 0;            // next open() of a simulated path fails with this errno
+	bool as_fifo = false;          // fstat()/lseek() on simulated descriptors: regular file of the content's size (default) or a pipe (size 0, ESPIPE)
+	long fstats = 0, lseeks = 0;
 	// observations
 	long reads = 0, writes = 0, opens = 0, closes = 0, injected = 0, bad_close = 0, eof_reads = 0;
 	long short_xfers = 0, full_buffer_reads = 0;
